@@ -122,6 +122,18 @@ func c15Sequence(c *sim.Ctx, s []byte) *sim.Violation {
 					return sim.V("C15/agreement/"+class+"/accepted-as-property-length", "frame %x: the property length %x %s, yet ReadPacket gives %s", frame, s, map[string]string{"five-or-more-bytes": "continues beyond four bytes", "ends-on-continuation": "ends on a continuation byte"}[class], oneOutcome(o))
 				}
 			}
+			// ... and as the SUBSCRIPTION IDENTIFIER that ends the body of a PUBLISH without
+			// payload (where bytes of another section follow, a decoder reads on into them
+			// and what it then does is not C15's matter)
+			for _, tmpl := range [][]byte{{0x30, 0x00, 0x01, 't'}, {0x32, 0x00, 0x01, 't', 0x00, 0x07}} {
+				props := append([]byte{0x0B}, s...)
+				body := append(append([]byte{}, tmpl[1:]...), byte(len(props)))
+				body = append(body, props...)
+				frame := append([]byte{tmpl[0], byte(len(body))}, body...)
+				if o := ReadOne(link.NewReader(c.Muted(), frame, link.Mode{})); o.Kind != "error" {
+					return sim.V("C15/agreement/"+class+"/accepted-as-subscription-identifier", "frame %x: the subscription identifier %x is not a variable byte integer, yet ReadPacket gives %s", frame, s, oneOutcome(o))
+				}
+			}
 			c.Count("probe.invalid-sequence-as-property-length-through-ReadPacket")
 		}
 		if uerr == nil {
